@@ -285,6 +285,13 @@ class SdkRun:
             sub = self.compiled[item["obj"] - 1]
             vals = item["vals"]
             try:
+                if len(vals) >= 2:
+                    # a first instantiate() that is refused (only one of the template values is known yet, and it is not
+                    # the final one): refused calls leave the compiled object as it was
+                    try:
+                        sub.instantiate(self.conn.app_id, {template_name("t1"): (vals[0] + 3) % 8})
+                    except Exception:
+                        pass
                 sub.instantiate(self.conn.app_id, {template_name(f"t{j + 1}"): v for j, v in enumerate(vals)})
                 self.conn.commit_subroutine(sub)
                 self.obs.append(self.snapshot_flush(False))
